@@ -224,26 +224,49 @@ impl ExactSizeIterator for OsuGradualDifficulty {
 }
 
 mod osu_objects {
-    use std::pin::Pin;
+    use std::{pin::Pin, ptr::NonNull};
 
     use crate::osu::object::OsuObject;
 
-    /// Wrapper to ensure that the data will not be moved
+    /// Wrapper to ensure that the data will not be moved.
+    ///
+    /// The objects are owned through a raw pointer instead of a [`Box`]
+    /// because a `Box` asserts unique access to its content every time it is
+    /// moved or passed to a function. The difficulty objects keep references
+    /// into the allocation so that assertion would not hold whenever the
+    /// gradual calculator itself is moved, e.g. into an iterator adaptor.
     pub(super) struct OsuObjects {
-        objects: Box<[OsuObject]>,
+        objects: NonNull<[OsuObject]>,
     }
 
+    // SAFETY: `OsuObjects` owns its objects just like a `Box<[OsuObject]>`
+    unsafe impl Send for OsuObjects {}
+    unsafe impl Sync for OsuObjects {}
+
     impl OsuObjects {
-        pub(super) const fn new(objects: Box<[OsuObject]>) -> Self {
+        pub(super) fn new(objects: Box<[OsuObject]>) -> Self {
+            // SAFETY: `Box::into_raw` never returns null
+            let objects = unsafe { NonNull::new_unchecked(Box::into_raw(objects)) };
+
             Self { objects }
         }
 
         pub(super) const fn is_empty(&self) -> bool {
-            self.objects.is_empty()
+            self.objects.len() == 0
         }
 
         pub(super) fn iter_mut(&mut self) -> impl ExactSizeIterator<Item = Pin<&mut OsuObject>> {
-            self.objects.iter_mut().map(Pin::new)
+            // SAFETY: The pointer originates from a `Box` which is freed only
+            // in `Drop` and `&mut self` ensures exclusive access.
+            unsafe { self.objects.as_mut() }.iter_mut().map(Pin::new)
+        }
+    }
+
+    impl Drop for OsuObjects {
+        fn drop(&mut self) {
+            // SAFETY: The pointer originates from `Box::into_raw` and is
+            // dropped only once.
+            drop(unsafe { Box::from_raw(self.objects.as_ptr()) });
         }
     }
 }
